@@ -75,6 +75,18 @@ func reachableWithout(fn *ssa.Function, target *ssa.BasicBlock, cut []edge) bool
 		sortStrings(parts)
 		return strings.Join(parts, ",")
 	}
+	// only comparisons whose operand pair is tested by at least two branches
+	// can correlate; tracking nothing else keeps the search small
+	pairCount := map[[2]ssa.Value]int{}
+	for _, b := range fn.Blocks {
+		if iff, ok := b.Instrs[len(b.Instrs)-1].(*ssa.If); ok {
+			c, _ := stripNot(iff.Cond)
+			if bo, ok := c.(*ssa.BinOp); ok {
+				pairCount[[2]ssa.Value{bo.X, bo.Y}]++
+				pairCount[[2]ssa.Value{bo.Y, bo.X}]++
+			}
+		}
+	}
 	seen := map[state]bool{}
 	type item struct {
 		b  *ssa.BasicBlock
@@ -86,7 +98,7 @@ func reachableWithout(fn *ssa.Function, target *ssa.BasicBlock, cut []edge) bool
 		it := stack[len(stack)-1]
 		stack = stack[:len(stack)-1]
 		steps++
-		if steps > 200000 {
+		if steps > 2000000 {
 			return true // give up: conservatively reachable
 		}
 		// entering block b invalidates facts about values defined in b
@@ -120,7 +132,7 @@ func reachableWithout(fn *ssa.Function, target *ssa.BasicBlock, cut []edge) bool
 						truth = !truth
 					}
 					m := relMask(bo.Op, truth)
-					if m != 7 {
+					if m != 7 && pairCount[[2]ssa.Value{bo.X, bo.Y}] >= 2 {
 						x, y := bo.X, bo.Y
 						feasible := true
 						found := false
